@@ -2,6 +2,9 @@ package main
 
 import (
 	"fmt"
+	"os"
+	"path/filepath"
+	"regexp"
 	"sort"
 	"strings"
 
@@ -271,5 +274,132 @@ func runC13(c *ctx, r *Report) error {
 	r.Exhaustive = true
 	r.sample(map[string]string{"file": "a.yml", "mapping": "jobs.build.container", "mutation": "foreign key zz-unknown at the front, with a malformed placeholder in `image`"})
 	r.sample(map[string]string{"file": "b.yml", "mapping": "on.workflow_call.inputs", "mutation": "repeated key NAME (case-insensitive mapping)"})
+	return c13KeyOrder(c, r)
+}
+
+var reC13Pos = regexp.MustCompile(`line:\d+,col:\d+`)
+
+// c13KeyOrder: "an unknown or duplicate key never suppresses the diagnostics of its sibling keys" has a consequence that
+// needs no knowledge of the syntax: the order in which the keys of a mapping are written does not change which
+// diagnostics are reported. Every mapping of the base workflows and of the project's own test workflows is re-emitted
+// with its pairs reversed and rotated; the multiset of (kind, message without positions) must stay the same.
+// Not compared: messages that name "the first" of several candidates by position (needs cycle, label conflict).
+func c13KeyOrder(c *ctx, r *Report) error {
+	srcs := map[string]string{}
+	for k, v := range wfBases {
+		srcs[k] = v
+	}
+	for _, d := range []string{"err", "ok", "examples"} {
+		m, _ := filepath.Glob(filepath.Join("/repo/testdata", d, "*.yaml"))
+		for _, f := range m {
+			if b, err := os.ReadFile(f); err == nil {
+				srcs["testdata/"+d+"/"+filepath.Base(f)] = string(b)
+			}
+		}
+	}
+	names := make([]string, 0, len(srcs))
+	for k := range srcs {
+		names = append(names, k)
+	}
+	sort.Strings(names)
+	canon := func(src string) (string, bool) {
+		errs, err := lintSrc("k.yaml", src)
+		if err != nil {
+			return "", false
+		}
+		var out []string
+		for _, e := range errs {
+			if e.Kind == "syntax-check" && strings.HasPrefix(e.Message, "could not parse as YAML") {
+				return "", false
+			}
+			if strings.Contains(e.Message, "cyclic dependencies") || strings.Contains(e.Message, "conflicts with") {
+				continue
+			}
+			// a step with both `run` and `uses`: one diagnostic either way, worded after the key that came first
+			if strings.HasPrefix(e.Message, "this step is for running") {
+				out = append(out, "["+e.Kind+"] this step is for running … but also contains …")
+				continue
+			}
+			out = append(out, "["+e.Kind+"] "+reC13Pos.ReplaceAllString(e.Message, "line:_,col:_"))
+		}
+		sort.Strings(out)
+		return strings.Join(out, "\n"), true
+	}
+	nMaps, nFiles := 0, 0
+	for _, name := range names {
+		src := srcs[name]
+		if strings.Contains(src, "&") && strings.Contains(src, "*") || strings.Contains(src, "<<:") {
+			continue // anchors / aliases / merge keys: an alias must follow its anchor
+		}
+		root, err := parseYAML(src)
+		if err != nil {
+			continue
+		}
+		// reference: the re-emitted but unchanged document (so that both sides went through the same emitter)
+		ref0, err := emitYAML(cloneNode(root))
+		if err != nil {
+			continue
+		}
+		ref, ok := canon(ref0)
+		if !ok || strings.Contains(ref, "is duplicated") {
+			continue // with a repeated key, which occurrence is "the repetition" (and which value survives) is a matter of order
+		}
+		nFiles++
+		var visits []yvisit
+		walkYAML(root, nil, nil, &visits)
+		for _, v := range visits {
+			if v.isKey || v.node.Kind != yaml.MappingNode || len(v.node.Content) < 4 {
+				continue
+			}
+			if genericKeyPath(v.keys) == "on.workflow_call.inputs" {
+				continue // an input's default may refer to the inputs declared BEFORE it: sequential scope by design
+			}
+			{
+				// a step that mixes the keys of a script step and of an action step is diagnosed according to the key
+				// that comes first (one of two contradictory readings): not a matter of unknown / duplicate / missing keys
+				has := map[string]bool{}
+				for k := 0; k+1 < len(v.node.Content); k += 2 {
+					has[strings.ToLower(v.node.Content[k].Value)] = true
+				}
+				if (has["run"] || has["shell"] || has["working-directory"]) && (has["uses"] || has["with"]) {
+					continue
+				}
+			}
+			for variant := 0; variant < 2; variant++ {
+				m := cloneNode(root)
+				n := nodeAt(m, v.path)
+				pairs := len(n.Content) / 2
+				nc := make([]*yaml.Node, 0, len(n.Content))
+				if variant == 0 { // reversed
+					for k := pairs - 1; k >= 0; k-- {
+						nc = append(nc, n.Content[2*k], n.Content[2*k+1])
+					}
+				} else { // rotated by one
+					nc = append(nc, n.Content[2:]...)
+					nc = append(nc, n.Content[0], n.Content[1])
+				}
+				n.Content = nc
+				out, err := emitYAML(m)
+				if err != nil {
+					continue
+				}
+				got, ok := canon(out)
+				r.Evaluations++
+				if !ok {
+					continue
+				}
+				nMaps++
+				if c.quick && !strings.HasSuffix(name, ".yml") && variant == 1 && nMaps%3 != 0 {
+					continue
+				}
+				if got != ref {
+					r.finding("key-order-changes-diagnostics:"+genericKeyPath(v.keys), fmt.Sprintf("writing the keys of the mapping at %s in another order changes the diagnostics", strings.Join(v.keys, ".")),
+						Case{Op: "lint-reordered", Input: map[string]string{"file": name, "mapping": strings.Join(v.keys, "."), "order": []string{"reversed", "rotated"}[variant], "yaml": out}, Impl: got, Model: ref})
+				}
+			}
+		}
+	}
+	r.hist(fmt.Sprintf("key-order-mappings:%d", nMaps))
+	r.Rule += fmt.Sprintf("; key order: every mapping with ≥ 2 keys of the base workflows and of %d workflows under /repo/testdata re-emitted reversed and rotated: same multiset of (kind, message without positions)", nFiles)
 	return nil
 }
